@@ -8,6 +8,7 @@ import (
 	"sort"
 	"testing"
 
+	"github.com/NethermindEth/juno/blockchain/networks"
 	"github.com/NethermindEth/juno/core"
 	"github.com/NethermindEth/juno/core/felt"
 	"pgregory.net/rapid"
@@ -18,6 +19,107 @@ import (
 )
 
 func TestMain(m *testing.M) { stats.Main(m) }
+
+// ---- network configuration of a case
+//
+// Everything juno derives from the network when it verifies a block: the L2 chain id (part of every derivable transaction
+// hash), BlockHashMetaInfo.First07Block (height below which PRE-0.13.2 blocks use the pre-0.7 formula; blocks of the
+// generated formats, >= 0.13.2, are hashed by their protocol version at every height), UnverifiableRange (heights whose
+// hash juno deliberately does not verify) and FallBackSequencerAddress (only for headers without a sequencer address).
+//
+// Predefined networks are the ones a node can be started on today (networks.Network.Set) that have no unverifiable range.
+// The custom network is built the way cmd/juno builds one from the --cn-* flags (own name and chain id, no fallback
+// sequencer address, an explicit unverifiable range) plus the literal-only variants (First07Block > 0, nil range, a
+// fallback address) that predefined networks use.
+
+var customChainIDs = []string{"SN_AWESOME", "SN_JUNO_SEQUENCER", "SN_GOERLI", "KKRT_BETA", "A", "SN_MAIN_", "SN_SEPOLIa"}
+
+type netChoice struct {
+	net  *networks.Network
+	kind string // mainnet | sepolia | sepolia-integration | custom
+}
+
+func drawNet(rt *rapid.T) netChoice {
+	switch k := rapid.SampledFrom([]string{"sepolia", "mainnet", "mainnet", "sepolia-integration", "custom", "custom", "custom"}).Draw(rt, "net"); k {
+	case "sepolia":
+		return netChoice{&networks.Sepolia, k}
+	case "mainnet":
+		return netChoice{&networks.Mainnet, k}
+	case "sepolia-integration":
+		return netChoice{&networks.SepoliaIntegration, k}
+	default:
+		id := ""
+		if rapid.Bool().Draw(rt, "cnIdFromPool") {
+			id = rapid.SampledFrom(customChainIDs).Draw(rt, "cnId")
+		} else {
+			id = rapid.StringMatching(`[A-Z][A-Z0-9_]{0,19}`).Draw(rt, "cnIdRandom")
+		}
+		meta := &networks.BlockHashMetaInfo{
+			// 0 = what --cn-* gives; 1..4 lie inside a generated chain (heights straddle it), 5 just above the longest
+			// chain, 833 = mainnet's, 1000 far above
+			First07Block: rapid.SampledFrom([]uint64{0, 0, 1, 2, 3, 4, 5, 833, 1000}).Draw(rt, "first07"),
+		}
+		switch rapid.IntRange(0, 3).Draw(rt, "fallbackSeq") {
+		case 0, 1: // --cn-*: none
+		case 2:
+			meta.FallBackSequencerAddress = networks.Sepolia.BlockHashMetaInfo.FallBackSequencerAddress
+		case 3:
+			meta.FallBackSequencerAddress = ptrF(gen.NonZeroFelt().Draw(rt, "fallbackSeqAddr"))
+		}
+		return netChoice{&networks.Network{
+			Name:                "custom",
+			FeederURL:           networks.Sepolia.FeederURL,
+			GatewayURL:          networks.Sepolia.GatewayURL,
+			L1ChainID:           big.NewInt(int64(rapid.SampledFrom([]int{1, 5, 11155111, 31337}).Draw(rt, "cnL1"))),
+			L2ChainID:           id,
+			CoreContractAddress: networks.Mainnet.CoreContractAddress,
+			BlockHashMetaInfo:   meta,
+		}, k}
+	}
+}
+
+func ptrF(f felt.Felt) *felt.Felt { return &f }
+
+// drawUnverifiableRange gives a custom network a range of unverifiable heights that does NOT contain the height p of
+// the block that will be tampered (inside the range juno documents that the hash is not verified): none, a range that
+// begins right at / shortly above the end of the chain, or (p > 0) a range that ends right at / shortly below p - the
+// valid blocks inside it must still be accepted, the tampered block outside it must still be rejected.
+func drawUnverifiableRange(rt *rapid.T, n, p int) (r []uint64, label string) {
+	kinds := []string{"none", "above-chain", "above-chain"}
+	if p > 0 {
+		kinds = append(kinds, "below-p", "below-p")
+	}
+	switch k := rapid.SampledFrom(kinds).Draw(rt, "unverif"); k {
+	case "above-chain":
+		// lo = n is the first height that is never generated. (A tamper that raises the NUMBER of the last block by one
+		// can move it into the range: its hash is then not verified, but it does not continue the head, so it is still
+		// not stored - the oracle is "rejected by SanityCheckNewHeight or Store".)
+		lo := uint64(n + rapid.IntRange(0, 2).Draw(rt, "unverifGap"))
+		return []uint64{lo, lo + uint64(rapid.SampledFrom([]int{0, 1, 10, 100000}).Draw(rt, "unverifLen"))}, k
+	case "below-p":
+		hi := rapid.IntRange(0, p-1).Draw(rt, "unverifHi")
+		if rapid.IntRange(0, 2).Draw(rt, "unverifTight") > 0 {
+			hi = p - 1
+		}
+		return []uint64{uint64(rapid.IntRange(0, hi).Draw(rt, "unverifLo")), uint64(hi)}, k
+	default:
+		return nil, k
+	}
+}
+
+// otherChainID returns a copy of the case's network under a different L2 chain id (a real one where possible: the block
+// is then one that another network would accept).
+func otherChainID(t *rapid.T, net *networks.Network) *networks.Network {
+	var ids []string
+	for _, id := range append([]string{networks.Mainnet.L2ChainID, networks.Sepolia.L2ChainID, networks.SepoliaIntegration.L2ChainID}, customChainIDs...) {
+		if id != net.L2ChainID {
+			ids = append(ids, id)
+		}
+	}
+	o := *net
+	o.L2ChainID = rapid.SampledFrom(ids).Draw(t, "foreignChainId")
+	return &o
+}
 
 func bump(f *felt.Felt) *felt.Felt {
 	if f == nil {
@@ -387,6 +489,57 @@ func tamperTable() []tamper {
 		}
 		return tx, i, true
 	}))
+
+	// chain id: every derivable transaction hash commits to the L2 chain id of the network the node runs on; the block
+	// hash formats >= 0.13.2 commit to it only through the transaction hashes. A block whose transactions were hashed
+	// (signed) for another network must be rejected - with the stored block hash and with a block hash that is valid
+	// for the re-hashed content (then only the transaction-hash verification can reject it).
+	for _, rs := range []string{"", "block"} {
+		for _, all := range []bool{false, true} {
+			rs, all := rs, all
+			nm := "tx/any/foreign-chain-id"
+			if all {
+				nm = "tx/all/foreign-chain-id"
+			}
+			if rs != "" {
+				nm += "/recompute-blockhash"
+			}
+			tb = append(tb, tamper{name: nm, reseal: rs, apply: func(t *rapid.T, b *gen.Block, u *gen.Universe) string {
+				var idx []int
+				for i, tx := range b.B.Transactions {
+					switch x := tx.(type) {
+					case *core.DeployTransaction:
+						continue // hash given
+					case *core.DeclareTransaction:
+						if x.Version.Is(0) {
+							continue
+						}
+					case *core.L1HandlerTransaction:
+						if x.Nonce == nil {
+							continue
+						}
+					}
+					idx = append(idx, i)
+				}
+				if len(idx) == 0 {
+					return ""
+				}
+				if !all {
+					idx = []int{idx[rapid.IntRange(0, len(idx)-1).Draw(t, "txi")]}
+				}
+				other := otherChainID(t, u.Net)
+				for _, i := range idx {
+					tx := b.B.Transactions[i]
+					// (no applicability test on "the hash changed": every derivable hash format of the protocol contains
+					// the chain id; if juno's does not, the block below equals the valid one, is accepted, and that is
+					// exactly the violation - a transaction signed for another network is taken for one of this network)
+					gen.SetTxHash(tx, other)
+					b.B.Receipts[i].TransactionHash = tx.Hash()
+				}
+				return fmt.Sprintf("transaction(s) %v hashed for chain id %q instead of the node's %q", idx, other.L2ChainID, u.Net.L2ChainID)
+			}})
+		}
+	}
 
 	// signature: committed by the transaction commitment, not by the tx hash
 	tb = append(tb, tamper{name: "tx/signature", apply: func(t *rapid.T, b *gen.Block, u *gen.Universe) string {
@@ -764,15 +917,43 @@ func dumpEqual(a, b map[string]string) (string, bool) {
 
 func TestPropTamperedBlocksRejected(t *testing.T) {
 	stats.Check(t, stats.Budget{Quick: 1000, Thorough: 5000},
-		"valid generated chain of 1-5 blocks (reference-sealed, all tx kinds/versions); one block p is cloned and ONE committed field is tampered (table of ~150 spec-derived tampers: header, per-version tx fields with stored or recomputed tx hash, signature, receipts, events, messages, state-diff entries with stored or recomputed block hash, roots, class bodies, linkage, version); oracle: untampered chain accepted, tampered block rejected by SanityCheckNewHeight or Store on both backends, raw DB image and event answers identical before/after the rejection, the valid block p is then accepted; non-trivial = every case (a committed field really changed); classes reported per tamper name",
+		"network configuration drawn per case (sepolia / mainnet with First07Block 833 / sepolia-integration / custom network: own L2 chain id, First07Block 0..5|833|1000, with or without fallback sequencer address, unverifiable range none | starting at or above the end of the chain | ending below p); valid generated chain of 1-5 blocks sealed for that network (reference-sealed, all tx kinds/versions); one block p is cloned and ONE committed field is tampered (table of ~155 spec-derived tampers: header, per-version tx fields with stored or recomputed tx hash, signature, transactions hashed for a foreign chain id, receipts, events, messages, state-diff entries with stored or recomputed block hash, roots, class bodies, linkage, version); oracle: untampered chain accepted, tampered block rejected by SanityCheckNewHeight or Store on both backends, raw DB image and event answers identical before/after the rejection, the valid block p is then accepted; non-trivial = every case (a committed field really changed); classes reported per tamper name",
 		func(rt *rapid.T, c *stats.Case) {
 			u := gen.NewUniverse(rt)
+			// the network configuration of the case: the chain is sealed for it (chain id in the transaction hashes,
+			// block hash by juno's dispatch for that network), the node runs on it, recomputed hashes of tampers use it
+			nc := drawNet(rt)
+			u.Net = nc.net
 			ch := gen.NewChain(u, gen.Opts{MaxTxs: 8, MinVersionIdx: rapid.IntRange(0, 3).Draw(rt, "minver")})
 			n := rapid.IntRange(1, 5).Draw(rt, "nblocks")
 			for i := 0; i < n; i++ {
 				ch.Next(rt)
 			}
 			p := rapid.IntRange(0, n-1).Draw(rt, "p")
+			meta := u.Net.BlockHashMetaInfo
+			c.Label("net:" + nc.kind)
+			if nc.kind == "custom" {
+				// (the range is not part of any hash: it can be fixed after the chain has been sealed)
+				var rl string
+				meta.UnverifiableRange, rl = drawUnverifiableRange(rt, n, p)
+				c.Label("net:custom/unverifiable-range:" + rl)
+				if meta.FallBackSequencerAddress == nil {
+					c.Label("net:custom/no-fallback-sequencer")
+				}
+			}
+			if r := meta.UnverifiableRange; r != nil && uint64(p) >= r[0] && uint64(p) <= r[1] {
+				stats.HarnessError("tampered height %d inside the unverifiable range %v", p, r)
+			}
+			switch f7 := meta.First07Block; {
+			case f7 == 0:
+				c.Label("first07:0")
+			case uint64(p) < f7 && f7 < uint64(n):
+				c.Label("first07:inside-chain,p-below")
+			case uint64(p) < f7:
+				c.Label("first07:above-chain")
+			default:
+				c.Label("first07:inside-chain,p-at-or-above")
+			}
 			// choose a tamper applicable to block p (construction, not rejection: walk the table from a drawn start)
 			var bad *gen.Block
 			var tm tamper
@@ -794,7 +975,7 @@ func TestPropTamperedBlocksRejected(t *testing.T) {
 			if tm.reseal == "block" {
 				gen.Rehash(bad, u.Net)
 			}
-			c.Fp("%s p%d/%d %s", tm.name, p, n, ch.Blocks[p].B.Hash.String())
+			c.Fp("%s p%d/%d %s net %s/%s f7=%d ur=%v", tm.name, p, n, ch.Blocks[p].B.Hash.String(), u.Net.Name, u.Net.L2ChainID, meta.First07Block, meta.UnverifiableRange)
 			c.Label("tamper:" + tm.name)
 			c.NonTrivial("committed-field-changed")
 			if p > 0 {
@@ -833,7 +1014,8 @@ func TestPropTamperedBlocksRejected(t *testing.T) {
 				c.Violation("height", "height %d, %v after storing %d blocks", h, err, n)
 			}
 			c.Sample(func() any {
-				return map[string]any{"tamper": tm.name, "what": desc, "position": p, "chain_len": n, "backend": nd.Backend(), "version": ch.Blocks[p].B.ProtocolVersion, "rejection": fmt.Sprint(err)}
+				return map[string]any{"tamper": tm.name, "what": desc, "position": p, "chain_len": n, "network": u.Net.Name, "l2_chain_id": u.Net.L2ChainID, "first_07_block": meta.First07Block,
+					"unverifiable_range": fmt.Sprint(meta.UnverifiableRange), "backend": nd.Backend(), "version": ch.Blocks[p].B.ProtocolVersion, "rejection": fmt.Sprint(err)}
 			})
 		})
 }
